@@ -567,7 +567,29 @@ pub fn run(which: Which, tier: Tier) -> i32 {
             }
         }
     }
+    // Every round died on a further case. The confirmed crashes are violations of C10 in their
+    // own right: report them (coverage is capped: the sweep never ran to its end).
     let mut rep = Report::new(which.name(), tier);
+    if which == Which::C10 && !skipped.is_empty() {
+        let mut l = Layer { name: "crash-containment-only".into(), exhaustive: false, ..Default::default() };
+        for sk in &skipped {
+            let desc = sk["desc"].as_str().unwrap_or("");
+            let how = sk["how"].as_str().unwrap_or("");
+            let kind = if how.contains("signal") { "process killed (stack overflow / abort)" } else { how };
+            l.states += 1;
+            l.executions += 1;
+            l.transitions += 1;
+            rep.violation(Violation { class: "abort-or-hang".into(), key: format!("{}|{}", desc, kind), witness: json!({"case": sk["case"]}), detail: format!("[{desc}] evaluating all queries on this workspace: {how}") });
+        }
+        l.bound = format!("the sweep process died in each of 12 rounds; {} workspaces confirmed in isolation to take the process down", skipped.len());
+        rep.layer(l);
+        rep.caps.push(json!({"layer": "crash-containment-only", "cap": "12 crash-containment rounds; the sweep itself never completed"}));
+        rep.distinct_nontrivial = skipped.len() as u64;
+        rep.distinct_outcomes = 1;
+        rep.rule = "workspaces on which evaluating the query set kills the process, each confirmed in its own process".into();
+        rep.sample(json!({"desc": skipped[0]["desc"]}));
+        return rep.finish();
+    }
     rep.machinery("more than 12 crash-containment rounds");
     rep.finish()
 }
